@@ -8,8 +8,13 @@ From Verif Require Import Common.Base Common.Tactics JsScope.Model JsScope.Spec 
 (* what a scope will have declared when it is complete: lexical names, and var-like names
    (parameters, var, function) *)
 (* pargs: the scope is past its mark (MarkFuncArgs / MarkForStmt / catch parameter): bodies of functions, loops, catch *)
-Record promise := mkPr { plex : list Z ; pvar : list Z ; pargs : bool }.
+(* pfut: lexical names the scope does not promise yet but will from its mark on (the body block of a loop shares the
+   Scope of the loop head): var-like declarations must not pass through them either *)
+Record promise := mkPr { plex : list Z ; pvar : list Z ; pargs : bool ; pfut : list Z }.
 Definition pnames (pr : promise) : list Z := pvar pr ++ plex pr.
+Definition pall (pr : promise) : list Z := pnames pr ++ pfut pr.
+Lemma pall_pnames pr x : ~ In x (pall pr) -> ~ In x (pnames pr).
+Proof. intros H Hi. apply H. unfold pall. apply in_app_iff. left. exact Hi. Qed.
 
 Definition zframe := (frame * promise)%type.
 Definition dnames (fr : frame) : list Z := map fst (fdecl fr).
@@ -35,7 +40,7 @@ Fixpoint pass_ok (x : Z) (fs : nat) (z : list zframe) : Prop :=
   match z with
   | [] => False
   | (fr, pr) :: rest =>
-      if fisfunc fr then fid fr = fs /\ In x (pnames pr) else ~ In x (pnames pr) /\ pass_ok x fs rest
+      if fisfunc fr then fid fr = fs /\ In x (pnames pr) else ~ In x (pall pr) /\ pass_ok x fs rest
   end.
 
 (* a var-like declaration of x made on top of z is promised by the enclosing function scope and by
@@ -43,7 +48,7 @@ Fixpoint pass_ok (x : Z) (fs : nat) (z : list zframe) : Prop :=
 Fixpoint var_ok (x : Z) (z : list zframe) : Prop :=
   match z with
   | [] => False
-  | (fr, pr) :: rest => if fisfunc fr then In x (pvar pr) else ~ In x (pnames pr) /\ var_ok x rest
+  | (fr, pr) :: rest => if fisfunc fr then In x (pvar pr) else ~ In x (pall pr) /\ var_ok x rest
   end.
 
 Fixpoint func_of (z : list zframe) : nat :=
@@ -171,7 +176,7 @@ Proof.
   induction z as [|[fr pr] rest IH]; cbn [pass_ok env_of map fst snd]; [tauto|].
   destruct (fisfunc fr).
   - intros [<- Hin]. apply lookup_head. exact Hin.
-  - intros [Hn Hp]. rewrite lookup_skip by exact Hn. apply IH. exact Hp.
+  - intros [Hn Hp]. rewrite lookup_skip by exact (pall_pnames _ _ Hn). apply IH. exact Hp.
 Qed.
 
 Lemma lookup_var x z : var_ok x z -> lookup (env_of z) x = TBind (func_of z) false x.
@@ -179,7 +184,7 @@ Proof.
   induction z as [|[fr pr] rest IH]; cbn [var_ok env_of map fst snd func_of]; [tauto|].
   destruct (fisfunc fr).
   - intros Hin. apply lookup_head. unfold pnames. apply in_app_iff. left. exact Hin.
-  - intros [Hn Hp]. rewrite lookup_skip by exact Hn. apply IH. exact Hp.
+  - intros [Hn Hp]. rewrite lookup_skip by exact (pall_pnames _ _ Hn). apply IH. exact Hp.
 Qed.
 
 Lemma drop_to_head s a names e : drop_to s ((s, a, names) :: e) = (s, a, names) :: e.
@@ -410,7 +415,7 @@ Lemma L_mark_gen a fr pr pr' rest (nfor : frame -> nat) :
   (* the promise of the scope from the mark on *)
   (forall y k, In (y, k) (fdecl fr) -> In y (pnames pr') /\ (ArgumentDecl < k -> In y (plex pr'))) ->
   (forall y, In y (plex pr') -> ~ In y (pvar pr')) ->
-  (forall y fs, In (UPass y fs) (fund fr) -> ~ In y (pnames pr')) ->
+  (forall y fs, In (UPass y fs) (fund fr) -> ~ In y (pall pr')) ->
   exists a' fr',
     a_mark a nfor = ARun a' /\ AInv a' ((fr', pr') :: rest) /\
     fid fr' = fid fr /\ fisfunc fr' = fisfunc fr /\ fdecl fr' = fdecl fr /\ fund fr' = to_args (fund fr) /\
